@@ -1,6 +1,6 @@
 (* Box geometry for the extend-split model: closed boxes, open interiors, partitions of a box into parts
    (`Parts`), the two split operations produce partitions, partitions compose and can be refined in place. *)
-From Coq Require Import ZArith List Bool QArith Qcanon Lia Lra Lqa.
+From Coq Require Import ZArith List Bool QArith Qcanon Lia Lqa.
 From SG Require Import Base.QcUtil Model.CombiScheme Model.ExtendSplit.
 Import ListNotations.
 Open Scope Qc_scope.
